@@ -124,6 +124,9 @@ def run_with(binary, by_ob, scratch, log):
     path = os.path.join(scratch, "replay_atoms.pl")
     open(path, "w", encoding="utf-8").write(program())
     p = subprocess.run([binary, "-f", "--no-add-history", path], capture_output=True, text=True, timeout=900, stdin=subprocess.DEVNULL)
+    if "overwriting" in (p.stdout + p.stderr):
+        log.append("oracle program is malformed (discontiguous clauses were overwritten): not used")
+        return {ob: None for ob in by_ob}
     fails, n = [], 0
     for line in p.stdout.split("\n"):
         m = re.match(r"MISMATCH (\S+) (\d+) (\S+) (\S+) got=(.*) expected=(.*)$", line)
